@@ -326,6 +326,15 @@ def handleRxBurst (s : Sched) (tn fn : Nat) : Except Crash RxResult := do
                 let ts' := { ts with lchans := updFirst chan (fun l => { l with tdma := td' }) ts.lchans }
                 pure ⟨.ok, setTs s tn (some ts'), evs ++ [Ev.rx l.type tn fn bid], some bid⟩
 
+/-- a stream of received bursts on one timeslot: `l1sched_handle_rx_burst` for every frame
+    number of the list, in order; the final state -/
+def rxStream (s : Sched) (tn : Nat) : List Nat → Except Crash Sched
+  | [] => .ok s
+  | fn :: rest =>
+    match handleRxBurst s tn fn with
+    | .error e => .error e
+    | .ok r => rxStream r.sched tn rest
+
 /-- `l1sched_pull_burst(sched, br)` with `br->tn = tn`, `br->fn = fn` and an empty Tx
     primitive queue: the handler call (if any) and the value written to `br->bid` -/
 def pullBurst (s : Sched) (tn fn : Nat) : Except Crash (List Ev × Option Nat) := do
